@@ -448,13 +448,155 @@ def mon_ortho_invariance(R, s, g, ncase):
         R.distinct += ncase
 
 
+# ------------------------------------------------------------------ orthotropic axes conventions
+def ortho_stiffness(c9):
+    """3D stiffness (Mandel, order 11 22 33 12 13 23) from E1 E2 E3 nu12 nu23 nu13 G12 G23 G13 through the compliance"""
+    E1, E2, E3, n12, n23, n13, G12, G23, G13 = c9
+    S = np.zeros((6, 6))
+    S[0, 0], S[1, 1], S[2, 2] = 1 / E1, 1 / E2, 1 / E3
+    S[0, 1] = S[1, 0] = -n12 / E1
+    S[1, 2] = S[2, 1] = -n23 / E2
+    S[0, 2] = S[2, 0] = -n13 / E1
+    S[3, 3], S[4, 4], S[5, 5] = 1 / (2 * G12), 1 / (2 * G13), 1 / (2 * G23)
+    return np.linalg.inv(S)
+
+
+PLANE_HYPS = ("PlaneStress", "PlaneStrain", "GeneralisedPlaneStrain")
+
+
+def slot_map(conv, hyp):
+    """index in the 3D material-frame vector of every component stored in hypothesis `hyp`.
+    Pipe convention (OrthotropicAxesConvention.hxx): (rr, zz, tt) = material axes (1, 2, 3) in 3D, axisymmetrical and 1D
+    hypotheses; (rr, tt, zz) in plane stress / strain / generalised plane strain: second and third axes exchanged, the
+    in-plane shear is then the 1-3 shear.  Default and Plate: no exchange."""
+    d = gbnp.gen.HYP_DIM[hyp]
+    if d == 3:
+        return [0, 1, 2, 3, 4, 5]
+    if d == 1:
+        return [0, 1, 2]
+    if conv == "Pipe" and hyp in PLANE_HYPS:
+        return [0, 2, 1, 4]
+    return [0, 1, 2, 3]
+
+
+def mon_ortho_conventions(R, s, g, ncase):
+    lib = gbnp.gen.load(s["lib"])
+    name, key, conv, fam = s["name"], s.get("key", s["name"]), s["convention"], s["family"]
+    c9 = s["constants"]
+    D3 = ortho_stiffness(c9)
+    hyps = gbnp.hypotheses(lib, name)
+    b3 = gbnp.B(lib, name, "Tridimensional")
+    dscale = float(np.max(np.abs(D3)))
+
+    def mps(hyp):
+        if fam != "required":
+            return []
+        d = gbnp.gen.HYP_DIM[hyp]
+        # Default convention: the constants are given in the axes of the hypothesis (first 6 / 7 / 9 of them)
+        return [float(x) for x in (c9[:6] if d == 1 else (c9[:7] if d == 2 else c9))]
+
+    def call(b, hyp, K0, e0, e1, isv=None, esv=(0.0, 0.0)):
+        bb = b
+        mp = mps(hyp)
+        bb.b.nmp = len(mp)
+        kw = {"ElasticStrain": np.zeros(b.ns)}
+        kw.update(isv or {})
+        return bb.call(K0, 1.0, e0, e1, np.zeros(b.ns), mp, b.pack_isv(**kw), b.pack_esv(AxialStress=esv[0]), b.pack_esv(AxialStress=esv[1]))
+    for hyp in hyps:
+        b = gbnp.B(lib, name, hyp)
+        n, dim = b.ns, b.dim
+        p3 = slot_map(conv, hyp)
+        DH = D3[np.ix_(p3, p3)]
+        out = {"PlaneStress": 2, "AxisymmetricalGeneralisedPlaneStress": 1}.get(hyp)
+        inp = [i for i in range(n) if i != out]
+        pre = "%s_%s_" % (name, hyp)
+        for i in range(ncase):
+            e1 = rand_dir(g, n) * 10 ** g.uniform(-5, -2.5)
+            szz = g.uniform(-5e7, 5e7) if hyp == "AxisymmetricalGeneralisedPlaneStress" else 0.0
+            etozz0 = g.uniform(-1e-4, 1e-4)
+            if out is not None:
+                e1[out] = 0.0
+            e0 = np.zeros(n)
+            escale = float(np.sum(np.abs(e1))) + abs(szz) / dscale
+            tol = 1e-12 * dscale * escale
+
+            def expected(em):
+                """stress and operator in the storage of the hypothesis for the strain em (numpy, from D3)"""
+                if out is None:
+                    return DH @ em, DH, None
+                Doo = DH[out, out]
+                eo = (szz - DH[out, inp] @ em[inp]) / Doo
+                ef = em.copy()
+                ef[out] = eo
+                Kc = np.zeros((n, n))
+                Kc[np.ix_(inp, inp)] = DH[np.ix_(inp, inp)] - np.outer(DH[inp, out], DH[out, inp]) / Doo
+                return DH @ ef, Kc, eo
+            # ---- material frame
+            o = call(b, hyp, 4, e0, e1, isv={"AxialStrain": etozz0}, esv=(0.0, szz))
+            R.n += 1
+            case = lambda: {"behaviour": name, "convention": conv, "family": fam, "hyp": hyp, "eto1": hexs(e1), "sigzz": szz,
+                            "constants": c9, "rc": o["rc"], "thf": fl(o["thf"]), "msg": o["msg"]}
+            if o["rc"] != 1:
+                R.violation("%s:%s:integration-failed" % (key, hyp), "orthotropic elastic step returned %d: %s" % (o["rc"], o["msg"]), case())
+                continue
+            sig = np.array(o["thf"])
+            sexp, Kexp, eo = expected(e1)
+            R.rec("%s:%s:stress-vs-3D-stiffness" % (key, hyp), float(np.max(np.abs(sig - sexp))), tol, case,
+                  "stress differs from the reduction of the 3D orthotropic stiffness for the %s convention: got %s expected %s" % (conv, fl(sig), fl(sexp)))
+            K = np.array(o["K"][:n * n]).reshape(n, n)
+            sub = np.ix_(inp, inp)
+            R.rec("%s:%s:operator-vs-3D-stiffness" % (key, hyp), float(np.max(np.abs(K[sub] - Kexp[sub]))), 1e-12 * dscale, case,
+                  "tangent operator differs from the reduction of the 3D orthotropic stiffness: got %s expected %s" % (fl(K[sub].ravel()), fl(Kexp[sub].ravel())))
+            if eo is not None and fam == "brick":
+                R.rec("%s:%s:axial-strain" % (key, hyp), abs(b.isv(o["isv"], "AxialStrain") - etozz0 - eo), 1e-12 * escale + 1e-22, case,
+                      "axial strain increment differs from the one zeroing / prescribing the axial stress")
+            # ---- the same loading given to the Tridimensional entry point of the same library
+            if hyp != "Tridimensional":
+                v3 = np.zeros(6)
+                ef = e1.copy()
+                if out is not None:
+                    ef[out] = eo
+                v3[p3] = ef
+                o3 = call(b3, "Tridimensional", 0, np.zeros(6), v3)
+                R.n += 1
+                if o3["rc"] == 1:
+                    R.rec("%s:%s:stress-vs-Tridimensional" % (key, hyp), float(np.max(np.abs(sig - np.array(o3["thf"])[p3]))), tol,
+                          lambda: dict(case(), thf_3D=fl(o3["thf"])), "stress differs from the Tridimensional response to the same loading (components %s)" % p3)
+            # ---- through the generated rotation functions (global frame -> material frame -> global frame)
+            if dim >= 2:
+                Mx = rand_frame(g, dim)
+                rv = Mx.T.ravel()
+                eg = rand_dir(g, n) * 10 ** g.uniform(-5, -2.5)
+                if out is not None:
+                    eg[out] = 0.0
+                gm = call_rot(lib, pre + "rotateGradients", eg, rv, n)
+                om = call(b, hyp, 4, np.zeros(n), gm, isv={"AxialStrain": etozz0}, esv=(0.0, szz))
+                R.n += 1
+                if om["rc"] != 1:
+                    R.violation("%s:%s:integration-failed" % (key, hyp), "orthotropic elastic step returned %d" % om["rc"], case())
+                    continue
+                sg = call_rot(lib, pre + "rotateThermodynamicForces", om["thf"], rv, n)
+                Kg = call_rot(lib, pre + "rotateTangentOperatorBlocks", om["K"][:n * n], rv, n * n).reshape(n, n)
+                Qg, Qb = qs_matrix(Mx, dim), qs_matrix(Mx.T, dim)
+                sm_exp, Km_exp, _ = expected(Qg @ eg)
+                sg_exp, Kg_exp = Qb @ sm_exp, Qb @ Km_exp @ Qb.T
+                cr = lambda: dict(case(), rv=fl(rv), eto_global=hexs(eg), got=fl(sg), expected=fl(sg_exp))
+                R.rec("%s:%s:rotated-stress" % (key, hyp), float(np.max(np.abs(sg - sg_exp))), 1e-12 * dscale * float(np.sum(np.abs(eg))) + 1e-12 * abs(szz), cr,
+                      "stress of a loading given in the global frame (rotateGradients, integration, rotateThermodynamicForces) differs from the numpy rotation of the 3D-stiffness response")
+                R.rec("%s:%s:rotated-operator" % (key, hyp), float(np.max(np.abs(Kg[sub] - Kg_exp[sub]))), 1e-12 * dscale, cr,
+                      "operator rotated by rotateTangentOperatorBlocks differs from the numpy rotation of the reduced 3D stiffness")
+        R.distinct += ncase
+
+
 def run(group, seed, ncase):
     M.self_test()
     R = M.Strata()
     for s in group:
         g = random.Random("c44/%s/%s" % (seed, s["name"]))
         k = s["kind"]
-        if k in ("ortho_iso", "ortho_elastic", "ortho_finite_strain"):
+        if k == "ortho_convention":
+            mon_ortho_conventions(R, s, g, ncase)
+        elif k in ("ortho_iso", "ortho_elastic", "ortho_finite_strain"):
             mon_rotate_functions(R, s, g, ncase)
             if k == "ortho_iso":
                 mon_ortho_invariance(R, s, g, ncase)
